@@ -366,7 +366,8 @@ def run_scenario(sc, observe="all"):
                                 res = "skipped"
                             else:
                                 mk_ = fw.markets.markets.get(o.market_id)
-                                res = mk_.place_order(o, client=cls[self.spec.get("client", 0)])
+                                opt_ = (a[2] if len(a) > 2 else None) or {}
+                                res = mk_.place_order(o, client=cls[opt_.get("client", self.spec.get("client", 0))])
                         elif a[0] in ("cancel", "update", "replace"):
                             o = names.get(a[1])
                             opt = (a[3] if len(a) > 3 else None) or {}
@@ -469,7 +470,8 @@ def run_scenario(sc, observe="all"):
         for mid, market in fw.markets._markets.items():
             for o in market.blotter:
                 final.append(dict(order_snapshot(o, name_of(o)), market=mid, strategy=o.trade.strategy.idx,
-                                  runner_status=o.runner_status, in_live=o in market.blotter._live_orders))
+                                  runner_status=o.runner_status, in_live=o in market.blotter._live_orders,
+                                  client=next((i for i, c in enumerate(cls) if c is o.client), -1)))
         out = {"calls": rec.calls, "obs": rec.obs, "packages": rec.packages, "events": rec.events, "requests": rec.requests,
                "final": final, "error": err, "clock_restored": datetime.datetime is real_dt,
                "tx": [[c.current_transaction_count_total, c.transaction_count_total] for c in cls],
